@@ -49,6 +49,12 @@ def vs_dims():
     for n in U:
         m += ('    <sbe:message name="n_%s" id="%d">\n        <group name="g" id="1" dimensionType="dim_%s_%s">\n            <field name="a" id="2" type="uint8"/>\n'
               '            <data name="d" id="3" type="vd8"/>\n        </group>\n    </sbe:message>\n') % (n, k, n, n); k += 1
+    # nested groups for the 12 mixed pairs as well (numInGroup and blockLength of different widths)
+    for n in U:
+        for b in U:
+            if n == b: continue
+            m += ('    <sbe:message name="n_%s_%s" id="%d">\n        <group name="g" id="1" dimensionType="dim_%s_%s">\n            <field name="a" id="2" type="uint8"/>\n'
+                  '            <data name="d" id="3" type="vd8"/>\n        </group>\n    </sbe:message>\n') % (n, b, k, n, b); k += 1
     open(os.path.join(OUT, "vs_dims.xml"), "w").write(schema("vs_dims", t, m, sid=12))
 
 def vs_data():
